@@ -252,6 +252,55 @@ def mirrored_cached_gates(ctx):
     ctx.case({"directed": "mirrored-cached-gates"}, True)
 
 
+def grown_graph_gates(ctx):
+    """A graph that was already RUN (its lazily derived routing tables exist) is grown with add_nodes(<a gate whose
+    targets are nodes of the graph>): in the grown graph the gate controls its targets like in a graph built in one go -
+    exactly the selected branch runs. If/else and route gates, open and closed by default, both runners."""
+    import asyncio
+
+    from hypergraph import AsyncRunner, FunctionNode, Graph, IfElseNode, RouteNode, SyncRunner
+
+    log = []
+
+    def mk(tag):
+        def body(x):
+            log.append(tag)
+            return (tag, x)
+
+        body.__name__ = tag
+        return body
+
+    for kind in ("ifelse", "route"):
+        for open_ in (True, False):
+            for touch in ("run", "controlled_by", "none"):
+                for runner in ("sync", "async"):
+                    small, large = FunctionNode(mk("small"), name="small", output_name="s_out"), FunctionNode(mk("large"), name="large", output_name="l_out")
+                    base = Graph([small, large], name="grown")
+                    if touch == "run":
+                        SyncRunner().run(base, {"x": 1})
+                    elif touch == "controlled_by":
+                        _ = base.controlled_by
+                    if kind == "ifelse":
+                        gate = IfElseNode(lambda x: x > 10, when_true="large", when_false="small", name="pick", default_open=open_)
+                    else:
+                        gate = RouteNode(lambda x: "large" if x > 10 else "small", targets=["small", "large"], name="pick", default_open=open_)
+                    try:
+                        grown = base.add_nodes(gate)
+                    except Exception as e:  # noqa: BLE001
+                        ctx.violation("C03:grown-graph:rejected", f"add_nodes(gate) raised {e!r}", {"program": "grown graph", "gate": kind})
+                        continue
+                    for x, want in ((1, "small"), (50, "large")):
+                        log.clear()
+                        r = SyncRunner().run(grown, {"x": x}) if runner == "sync" else asyncio.run(AsyncRunner().run(grown, {"x": x}))
+                        ctx.obs["grown_graph_runs"] += 1
+                        ctx.obs["deterministic_compared"] += 1
+                        # a default-open gate that decides in step 1 together with its targets still decides first
+                        if log != [want] or set(r.values) != {want[0] + "_out"}:
+                            ctx.violation("C03:executed-set:grown-graph", f"{runner}: {kind} gate (default_open={open_}) added with add_nodes() after the base graph was {touch if touch != 'none' else 'never used'}: x={x} selects {want}, executed {log}, values {sorted(r.values)}", {"program": "graph grown by add_nodes(gate)", "gate": kind, "default_open": open_, "base_used": touch, "runner": runner, "x": x})
+                            break
+    ctx.case({"directed": "grown-graph-gates"}, True)
+
+
 def run(ctx):
     n = 60 if ctx.tier == "quick" else 1300
     if ctx.replay:
@@ -263,6 +312,7 @@ def run(ctx):
     if ctx.shard[0] == 0:
         cached_gate_loops(ctx)
         mirrored_cached_gates(ctx)
+        grown_graph_gates(ctx)
     # directed part: every loop template (gates with and without wait_for, exits, nested, two-signal gates ...)
     sysn = 0
     for N in (1, 3) if ctx.tier == "quick" else (0, 1, 2, 3, 5):
